@@ -112,7 +112,7 @@ def main(tier, seed):
         'Coq 8.16.1 kernel; theorems closed under the global context (no axioms)',
         'extraction ExtrOcamlBasic only; the monitor (Models/Monitor.v) and the machine model are run extracted',
         'unverified glue: ocaml/driver.ml, tools/vlib, tools/implfns/machfn.py incl. build_cert (layout certificate from the compiler symbol tables via qvm.memlayout)',
-        'proved: instruction- and block-level type/stack safety for the stack instructions (domain of eff); NOT proved: a whole-program verifier soundness theorem (control flow joins, memory typing): that part is the per-run monitor and therefore exploration of paths actually run',
+        'proved: instruction- and block-level type/stack safety for the stack instructions (domain of eff); certificates of stack types are invariants of all executions inside a region of stack instructions (cfg_step/cfg_run/cert_frame), and the certificate observed in each run is checked statically; NOT proved: a whole-program verifier soundness theorem (memory typing, frames, calls, reference opcodes): that part is the per-run monitor and therefore exploration of paths actually run',
         'modelled not verified: qvm/cpu.py; the monitor observes the model run, which the tie checks equal to the real run (final state, events, tick count)',
     ]
     ctx.prove()
@@ -207,6 +207,44 @@ def main(tier, seed):
                         'script': c['script']['lines']}, True)
         ctx.bump('ticks', n)
     ctx.count('monitor', len(cases), keys)
+
+    # ---- control-flow certificates (Models/CertObs.v + C03_cfg_run / C03_cert_frame):
+    # for every run with debug info the extracted model collects the stack types of every
+    # executed stack instruction relative to the depth at the start of its source statement
+    # and checks the collected certificate STATICALLY against the decoded code (check_cert)
+    cjobs, cidx = [], []
+    for i, job in zip(idx, jobs):
+        c = cases[i]
+        if c['debug'] and not c.get('bad'):
+            cjobs.append([2, job[1], job[2], c['max_ticks']])
+            cidx.append(i)
+    couts = vlib.run_model(exe, cjobs)
+    ckeys, ncert, nseen = set(), 0, 0
+    for i, co in zip(cidx, couts):
+        c = cases[i]
+        if isinstance(co, str) or co == [-999, -999, -999]:
+            ctx.broken.append(f'certificate entry failed ({co}) on {c["tag"]}')
+            break
+        okc, conflicts, failing, size, seen_n = co
+        ncert += size
+        nseen += seen_n
+        ckeys.add((c['tag'], c['level']))
+        if conflicts:
+            ctx.report(f'C03/certificate-join-conflict({c["tag"]})',
+                       {'src': c['src'], 'level': c['level'], 'debug': c['debug'],
+                        'addresses': conflicts[:10]}, True)
+        if not okc:
+            ctx.report(f'C03/certificate-rejected({c["tag"]})',
+                       {'src': c['src'], 'level': c['level'], 'debug': c['debug'],
+                        'failing_addresses': failing[:10]}, True)
+    ctx.count('certificates', len(cjobs), ckeys)
+    ctx.bump('certificate:addresses', ncert)
+    ctx.bump('certificate:stack-instructions-executed', nseen)
+    ctx.rule.append('certificates: every run with debug info is replayed once more by the extracted obs_run: '
+                    '(address, stack types relative to the statement-start depth) of every executed stack instruction; '
+                    'a second visit with other types is a join conflict; the collected certificate must pass check_cert '
+                    '(every successor observed anywhere in the run carries exactly the abstract result types), which by '
+                    'C03_cert_frame + C03_cfg_run makes it an invariant of every execution inside the observed region')
     ctx.sample({'program': cases[-10]['src'], 'level': cases[-10]['level']})
     ctx.sample({'program': matrix_programs()[5][1][:300]})
     return ctx.finish()
